@@ -592,6 +592,75 @@ def explore_consumers(ctx, n):
         pool.global_abort.clear()
 
 
+def explore_cleanup_exclusion(ctx):
+    """an exclusive task is not finished before its clean-up has run: while the real Worker.run is still in the clean-up of exclusive task X
+    (which ended normally, after a yield, or with a database error) another consumer asking for work gets nothing from X's FIFO"""
+    import peewee as pw
+    from alpenhorn.scheduler import FairMultiFIFOQueue, pool
+    from alpenhorn.scheduler.task import Task
+
+    for gen in (False, True):
+        for fault in (False, True):
+            for excl in (True, False):
+                queue = FairMultiFIFOQueue()
+                seen = []
+
+                def probe():
+                    it = queue.get(timeout=0.001)
+                    seen.append(None if it is None else str(it[0]))
+                    if it is not None:
+                        queue.task_done(it[1])  # (taken by the probing consumer; not run)
+
+                def xbody(task, _gen=gen, _fault=fault):
+                    task.on_cleanup(probe)
+                    if _gen:
+                        yield
+                    if _fault:
+                        raise pw.OperationalError("injected by the harness")
+
+                def xplain(task, _fault=fault):
+                    task.on_cleanup(probe)
+                    if _fault:
+                        raise pw.OperationalError("injected by the harness")
+
+                Task(xbody if gen else xplain, queue, "n:node", exclusive=excl, name="X")
+                Task(lambda task: None, queue, "n:node", name="Y")
+                pool.global_abort.clear()
+                for _ in range(4):
+                    if queue.qsize == 0:
+                        break
+                    wk = pool.Worker(queue, 0)
+                    got = {"n": 0}
+
+                    class QP:
+                        @staticmethod
+                        def get(timeout=None, _got=got, _wk=wk):
+                            if _got["n"] >= 1:
+                                _wk._worker_stop.set()
+                                return None
+                            _got["n"] += 1
+                            return queue.get(timeout=0.001)
+
+                        task_done = staticmethod(queue.task_done)
+
+                    wk._queue = QP
+                    wk.run()
+                    if seen:
+                        break
+                aborted = pool.global_abort.is_set()
+                pool.global_abort.clear()
+                ctx.count("cleanup-exclusion")
+                ctx.distinct_add(("cleanup-exclusion", gen, fault, excl))
+                rp = {"family": "cleanup-exclusion", "generator": gen, "database_error": fault, "exclusive": excl, "handed_out_during_cleanup": seen}
+                if not seen or aborted:
+                    ctx.broke("harness", "cleanup exclusion", f"X's clean-up did not run (generator={gen}, fault={fault}, exclusive={excl}); abort={aborted}")
+                elif excl and seen[0] is not None:
+                    ctx.fail("C12:exclusive-violated", f"while exclusive task X (generator={gen}, database error={fault}) was still in its clean-up another consumer was handed {seen[0]} from the same FIFO", rp)
+                elif not excl and seen[0] is None and not gen:
+                    # (an ordinary task does not hold the FIFO: the next item may start beside it)
+                    pass
+
+
 def explore_drain(ctx):
     """update_loop(once=True) on a host without nodes: it returns only when nothing is queued, deferred or running; the loop's wait step is
     scripted (each wait lets one more piece of outstanding work finish), so no real time is involved"""
@@ -829,6 +898,7 @@ def explore(ctx):
     explore_tasks(ctx, 200 if ctx.quick() else 3000)
     explore_consumers(ctx, 120 if ctx.quick() else 3000)
     explore_drain(ctx)
+    explore_cleanup_exclusion(ctx)
 
 
 def search(ctx):
